@@ -453,7 +453,7 @@ func (e *vfE7Env) run(c vfE7Case) (status int, reqs []string) {
 	reqs = e.cl.log.take()
 	// notifications: the handler starts `go func() { notifications <- a }()` before it answers
 	var notes []string
-	if c.notify {
+	if c.notify || c.method != "GET" {
 		// the goroutines exist before the handler returns: count them in a stack dump (no sleeping)
 		buf := make([]byte, 1<<20)
 		k := strings.Count(string(buf[:runtime.Stack(buf, true)]), "notifyAdminAction.func")
@@ -461,6 +461,9 @@ func (e *vfE7Env) run(c vfE7Case) (status int, reqs []string) {
 			select {
 			case a := <-e.n.notifications:
 				notes = append(notes, a.Action)
+				if bad := vfE7NotifyContent(e, c, path, a); bad != "" {
+					fmt.Printf("E7-NOTIFY-BAD %s %s /%s body=%q: %s\n", c.method, a.Action, strings.Join(c.segs, "/"), c.body, bad)
+				}
 			case <-time.After(10 * time.Second):
 				e.t.Fatalf("pending notification goroutine never delivered")
 			}
@@ -589,6 +592,56 @@ func (e *vfE7Env) run(c vfE7Case) (status int, reqs []string) {
 	e.out.Case(op, fmt.Sprintf("%d %s %s %s", status, rs, ns, cfgw))
 	e.hist[fmt.Sprintf("%s:%d", c.method, status)]++
 	return status, reqs
+}
+
+// vfE7NotifyContent: direct oracle on the content of one notification — it names the topic / channel / node the
+// request was about, the request URL, and no user unless basic auth was sent.
+func vfE7NotifyContent(e *vfE7Env, c vfE7Case, path string, a *AdminAction) string {
+	var b struct {
+		Topic   string `json:"topic"`
+		Channel string `json:"channel"`
+	}
+	json.NewDecoder(strings.NewReader(c.body)).Decode(&b)
+	real := func(s string) string {
+		if x, ok := e.cl.bySym[s]; ok {
+			return x
+		}
+		return s
+	}
+	wantTopic, wantChan, wantNode := "", "", ""
+	switch {
+	case len(c.segs) == 2: // POST /api/topics
+		wantTopic = b.Topic
+		if a.Action == "create_channel" {
+			wantChan = b.Channel
+		}
+	case len(c.segs) >= 3 && c.segs[1] == "nodes":
+		wantTopic, wantNode = b.Topic, real(c.segs[2])
+	case len(c.segs) >= 3:
+		wantTopic = c.segs[2]
+		if strings.HasSuffix(a.Action, "_channel") && len(c.segs) == 4 {
+			wantChan = c.segs[3]
+		}
+	}
+	if a.Topic != wantTopic || a.Channel != wantChan || a.Node != wantNode {
+		return fmt.Sprintf("notification names topic=%q channel=%q node=%q, the request was about topic=%q channel=%q node=%q",
+			a.Topic, a.Channel, a.Node, wantTopic, wantChan, wantNode)
+	}
+	wantUser := ""
+	hr := &http.Request{Header: http.Header{}}
+	for _, h := range c.sendHdrs {
+		hr.Header.Add(h[0], h[1])
+	}
+	if u, _, ok := hr.BasicAuth(); ok {
+		wantUser = u
+	}
+	if a.User != wantUser {
+		return fmt.Sprintf("notification carries user %q, the request's basic-auth user is %q", a.User, wantUser)
+	}
+	if u, err := url.Parse(a.URL); err != nil || u.EscapedPath() != strings.SplitN(path, "?", 2)[0] && u.Path != strings.SplitN(path, "?", 2)[0] {
+		return fmt.Sprintf("notification URL %q is not the request path %q", a.URL, path)
+	}
+	return ""
 }
 
 func (c vfE7Case) remoteOr() string {
